@@ -120,7 +120,8 @@ FACTORS = [
     ("n_max_steps", [None, 2]),
     ("eval", ["scalar", "vec", "blobs"]),
     ("pool", [None, 1, "obj", 2]),
-    ("boundary", ["none", "per0", "ref1", "per0ref1", "empty", "tuples", "sets"]),
+    ("boundary", ["none", "per0", "ref1", "per0ref1", "empty", "tuples", "sets", "dup0", "dup1ref"]),
+    ("callable", ["plain", "bound-temp", "partial"]),  # likelihood / prior transform as plain callables, bound methods of an otherwise unreferenced object, functools.partial
     ("save_every", [None, 1, 3]),
     ("output_label", [None, "x"]),
     ("target", ["gauss", "bimodal", "unequal"]),
@@ -131,7 +132,7 @@ DEFAULTS = {name: vals[0] for name, vals in FACTORS}
 
 
 def cfg_of(row):
-    c = {k: row[k] for k in ("sample", "resample", "cluster_every", "n_max_clusters", "split_threshold", "vv", "n_steps", "n_max_steps", "boundary", "target", "n_particles", "ess_ratio")}
+    c = {k: row[k] for k in ("sample", "resample", "cluster_every", "n_max_clusters", "split_threshold", "vv", "n_steps", "n_max_steps", "boundary", "target", "n_particles", "ess_ratio", "callable")}
     c["n_total"] = 4 * row["n_particles"]
     clu = row["clu"]
     c["clustering"] = clu != "off"
@@ -167,6 +168,10 @@ def _attempt(row, base):
     if p.exc is not None:
         return ("run", p.exc, p)
     errs = terminal_errors(p)
+    if not errs:  # a run that completed has sampled the prior's support: every stored particle lies in the unit cube
+        U = np.concatenate([np.asarray(b, dtype=float).reshape(len(b), -1) for b in p.state._history["u"]])
+        if not (np.all(U >= 0.0) and np.all(U <= 1.0)):
+            errs = [("post:particles-outside-the-unit-cube", f"{int(np.sum((U < 0) | (U > 1)))} stored unit-cube coordinates lie outside [0,1] (min {U.min()!r}, max {U.max()!r})")]
     if errs:
         return ("post", errs, p)
     try:
